@@ -29,7 +29,7 @@ import (
 // Item is one traffic item of a history (replayable: everything is derived from the case PRNG and these fields).
 type Item struct {
 	Adv        bool   `json:"adv"`           // built by the harness without the proposer's key (or a mutation of genuine material)
-	Via        string `json:"via"`           // da | p2p | init
+	Via        string `json:"via"`           // da | p2p | init | dah (a whole DA height: Blobs, read by processNextDAHeaderAndData from the DA double)
 	Kind       string `json:"kind"`          // hdr | data | junk | empty | undecodable | trunc
 	H          uint64 `json:"h"`             // base height: the genuine block this item is, or is derived from (L+1 = one past the chain)
 	Mut        string `json:"mut,omitempty"` // app | time | future | chain | datahash | last | height+ | height-
@@ -41,9 +41,38 @@ type Item struct {
 	NewTxs     bool   `json:"new_txs,omitempty"` // data: transactions invented by the third party (derived from Salt)
 	Linked     bool   `json:"linked,omitempty"`  // p2p data: LastDataHash = hash of the current data-store head
 	Salt       int64  `json:"salt,omitempty"`
+	Blobs      []Item `json:"blobs,omitempty"` // via=dah: the blobs of the DA height in id order (each a via=da item)
+	Rep        int    `json:"rep,omitempty"`   // inside Blobs: the blob is published Rep times in a row (0 = once)
+}
+
+func (it Item) rep() int {
+	if it.Rep < 1 {
+		return 1
+	}
+	return it.Rep
+}
+
+// nBlobs: number of blobs a DA-height item holds
+func (it Item) nBlobs() int {
+	n := 0
+	for _, b := range it.Blobs {
+		n += b.rep()
+	}
+	return n
 }
 
 func (it Item) String() string {
+	if it.Via == "dah" {
+		var p []string
+		for _, b := range it.Blobs {
+			p = append(p, fmt.Sprintf("%dx%s", b.rep(), b.String()))
+		}
+		s := fmt.Sprintf("dah(%d blobs){%s}", it.nBlobs(), strings.Join(p, " "))
+		if it.Adv {
+			s = "ADV:" + s
+		}
+		return s
+	}
 	s := fmt.Sprintf("%s/%s@%d", it.Via, it.Kind, it.H)
 	if it.Adv {
 		s = "ADV:" + s + fmt.Sprintf("[%s sign=%d key=%d addr=%d prop=%d nometa=%v new=%v link=%v]", it.Mut, it.Sign, it.SignerKey, it.SignerAddr, it.PropAddr, it.NoMeta, it.NewTxs, it.Linked)
